@@ -1030,6 +1030,7 @@ type Opts struct {
 	WantReach                   bool
 	Params                      map[string]int
 	Known                       []KnownRegion
+	BoundIsViolation            bool
 }
 
 // RunPath executes harness fn along the given decision prefix.
@@ -1059,6 +1060,17 @@ func RunPath(p *Program, solver *sym.Solver, fn *ssa.Function, prefix []int32, o
 			}
 		case pathEnd:
 			res.End, res.Msg = x.Kind, x.Msg
+			if x.Kind == "bound" && o.BoundIsViolation {
+				// termination is the property: exceeding the work bound is a candidate violation
+				e.Obligations++
+				e.pendingAll = nil
+				_, unknown := e.fail(sym.True, "no result within the work bound (possible non-termination)")
+				res.Violations = e.Violations
+				if unknown {
+					res.Undischarged = append(res.Undischarged, "bound exceeded on a path of undecided feasibility")
+				}
+				res.End = "nonterm"
+			}
 			if x.Kind == "unsupported" && len(e.notes) > 0 && os.Getenv("GOSYM_NOTES") != "" {
 				res.Msg += " notes=" + strings.Join(e.notes, ";")
 			}
